@@ -807,7 +807,13 @@ class Walker:
         body_outs = self.block(s.body, b0)
         # handlers start from a state that forgot everything the body may have changed
         h0 = st.copy()
-        self.kill(h0, assigned_names(s.body), self.root_names(self.effects.written_in(self.func, s.body), st))
+        # a name assigned only by the LAST statement of the body (`x = f(...)`) still has its earlier value in every handler: either
+        # an earlier statement raised, or that statement's right-hand side did, and then the assignment did not happen
+        killed = assigned_names(s.body)
+        last = s.body[-1] if s.body else None
+        if isinstance(last, ast.Assign) and all(isinstance(t, ast.Name) for t in last.targets):
+            killed = killed - ({t.id for t in last.targets} - assigned_names(s.body[:-1]))
+        self.kill(h0, killed, self.root_names(self.effects.written_in(self.func, s.body), st))
         for hi, h in enumerate(s.handlers):
             hs = h0.copy()
             hs.path = hs.path + ((s, ("handler", hi), ("true",)),)
